@@ -164,7 +164,10 @@ pub fn run(a: &Args, out: &mut impl Write) {
         }
     }
     for v in [false, true] {
-        writeln!(out, "a64bool {} | {}", v as u8, hexb(&a64::verif_bool_stub(v)[..8])).unwrap();
+        let b = a64::verif_bool_stub(v);
+        if b.len() >= 8 {
+            writeln!(out, "a64bool {} | {}", v as u8, hexb(&b[..8])).unwrap();
+        }
     }
     // ---- entry branch (Linux): func inside an arena, jit any number
     let arena_base = 0x2_0000_0000usize;
